@@ -289,3 +289,15 @@ func sortedKeys2(m map[string]string) []string {
 	sort.Strings(ks)
 	return ks
 }
+
+// txEngine reports whether the facts contain `<tx>.RuleEngine op val` about the *transaction's* engine mode.
+// The WAF-wide setting (tx.WAF.RuleEngine) is a different location: a transaction's mode can be changed by
+// ctl:ruleEngine, and every run-time decision has to follow the transaction's.
+func txEngine(f an.Facts, op, val string) bool {
+	for _, a := range f {
+		if strings.HasSuffix(a.L, ".RuleEngine") && !strings.Contains(a.L, ".WAF.") && a.Op == op && a.R == val {
+			return true
+		}
+	}
+	return false
+}
